@@ -30,6 +30,20 @@ def run(ctx):
         # ---- h  the copy keeps nothing in static storage: the bytes hashed are the bytes written (not another copy's)
         from . import c19 as _c19
         _c19.shared_scratch(ck, prog, config, 'C08-h', ('zck_copy_chunks',), 'chunk copy')
+        # ---- i  a target write that fails or is short never counts as done (error discipline of the write wrapper and
+        #         of the copy / zero-fill loops, shared with C12-a)
+        from ..rules import errdisc as _ed8
+        sites8, _cv8 = _ed8.analyse_sites(prog, want_site=lambda fn, c, label: fn.name in (
+            'write_data', 'write_and_verify_chunk', 'zero_chunk') and label in ('write', 'write_data', 'read_data', 'seek_data'))
+        k8 = 0
+        for s8 in sorted(sites8, key=lambda r: (r['caller'].qname, r['call'].line)):
+            k8 += 1
+            for v8 in s8['violations'] or [None]:
+                ck.ob('C08-i', 'R1.errdisc', s8['caller'].name, '%s#%d%s' % (s8['callee'], k8, (':' + v8['kind']) if v8 else ''),
+                      v8 is None, 'failure of %s cannot reach a success exit of %s' % (s8['callee'], s8['caller'].name)
+                      if v8 is None else '%s: %s' % (v8['kind'], v8['what']), s8['call'].file, s8['call'].line,
+                      config=config, trivial=bool(s8.get('trivial')))
+        ck.min_instances('checked I/O calls of the copy path', k8, 5)
         dlrules.match_guard(ck, prog, config, 'C08-c')
         n = dlrules.source_untouched(ck, prog, config, 'C08-d')
         ck.min_instances('write sites in dl.c', n, 4)
